@@ -6,7 +6,7 @@
    semantics) and hold for EVERY geometric core (frames_of, project_all, restore) that satisfies the two key
    laws KEYS (the keys written by _calculate_refsystems are the anchors of the bond graph, whatever the
    coordinates) and PROJ (every target atom is assigned to one of those keys).  The concrete core executed by
-   the correspondence check satisfies both (C04_core_*), for every Scalar instance.
+   the correspondence check satisfies both (C04_core_keys, C04_core_proj), for every Scalar instance.
 
    Operations `ops` range over: Call h (any handle: a valid argument, another species, a returned molecule),
    CallNonMolecule, PokeRef / PokeTgt (coordinates of the construction molecules), PokeObj (coordinates of any
@@ -243,22 +243,23 @@ Print Assumptions C04_core_proj.
    own gro residue numbers, one molecule of another name.  After the history
    [call arg; poke ref; non-molecule; call other; poke target; poke the returned molecule]
    every hypothesis of C04_history / C04_valid_stable / C04_keys holds and the call returns a molecule. *)
+Local Open Scope string_scope.
 Example C04_nonvacuous :
   let V := V3 float in
-  let p x y z : V := mk3 x y z in
+  let p (x y z : nat) : V := mk3 (f_ofZ (Z.of_nat x)) (f_ofZ (Z.of_nat y)) (f_ofZ (Z.of_nat z)) in
   let g (r : Z) rn n (i : Z) pos : gcell V := mkG r rn n i pos None in
   let hp : heap V := mkHeap
-    [ g 1%Z "REF" "A0" 1%Z (p 0 0 0); g 1%Z "REF" "A1" 2%Z (p 1 0 0); g 1%Z "REF" "A2" 3%Z (p 1 1 0);
-      g 5%Z "TA" "B0" 1%Z (p 0.5 0.5 0.5); g 6%Z "TB" "B1" 2%Z (p 1 1 1);
-      g 7%Z "REF" "A0" 1%Z (p 3 3 3); g 7%Z "REF" "A1" 2%Z (p 3 4 3); g 7%Z "REF" "A2" 3%Z (p 3 4 5);
-      g 1%Z "REF" "A0" 1%Z (p 0 0 0); g 1%Z "REF" "A1" 2%Z (p 1 0 0); g 1%Z "REF" "A2" 3%Z (p 1 1 0) ]
-    [ mkT "A0" "REF" 1%Z 0 [1]; mkT "A1" "REF" 1%Z 1 [0; 2]; mkT "A2" "REF" 1%Z 2 [1];
+    [ g 1%Z "RA" "A0" 1%Z (p 0 0 0); g 2%Z "RB" "A1" 2%Z (p 1 0 0); g 2%Z "RB" "A2" 3%Z (p 1 1 0);
+      g 5%Z "TA" "B0" 1%Z (p 1 1 2); g 6%Z "TB" "B1" 2%Z (p 1 1 1);
+      g 7%Z "RA" "A0" 1%Z (p 3 3 3); g 8%Z "RB" "A1" 2%Z (p 3 4 3); g 8%Z "RB" "A2" 3%Z (p 3 4 5);
+      g 1%Z "RA" "A0" 1%Z (p 0 0 0); g 2%Z "RB" "A1" 2%Z (p 1 0 0); g 2%Z "RB" "A2" 3%Z (p 1 1 0) ]
+    [ mkT "A0" "RA" 1%Z 0 [1]; mkT "A1" "RB" 2%Z 1 [0; 2]; mkT "A2" "RB" 2%Z 2 [1];
       mkT "B0" "TA" 1%Z 0 [1]; mkT "B1" "TB" 2%Z 1 [0];
-      mkT "A0" "REF" 1%Z 0 [1]; mkT "A1" "REF" 1%Z 1 [0; 2]; mkT "A2" "REF" 1%Z 2 [1] ] in
-  let ref := mkMol "REF" [0; 1; 2] [[0; 1; 2]] in
+      mkT "A0" "RA" 1%Z 0 [1]; mkT "A1" "RB" 2%Z 1 [0; 2]; mkT "A2" "RB" 2%Z 2 [1] ] in
+  let ref := mkMol "REF" [0; 1; 2] [[0]; [1; 2]] in
   let tgt := mkMol "TGT" [3; 4] [[3]; [4]] in
-  let arg := mkMol "REF" [0; 1; 2] [[5; 6; 7]] in
-  let other := mkMol "QEF" [5; 6; 7] [[8; 9; 10]] in
+  let arg := mkMol "REF" [0; 1; 2] [[5]; [6; 7]] in
+  let other := mkMol "QEF" [5; 6; 7] [[8]; [9; 10]] in
   let fo := @c_frames_of float FScalar in
   let pa := @c_project_all float FScalar 0.5%float in
   let rs := @c_restore float FScalar in
@@ -277,27 +278,31 @@ Example C04_nonvacuous :
       mol_eq V (s_heap st) ref other = Ok false /\
       mol_graph V (s_heap st) arg = Ok g0 /\
       is_ok (mol_positions V (s_heap st) arg) = true /\
-      mol_resids V (s_heap st) arg = Ok [7%Z] /\
+      mol_resids V (s_heap st) arg = Ok [7%Z; 8%Z] /\
       (forall l, In l (m_top tgt) -> ~ In l (m_top ref) /\ ~ In l (m_top arg)) /\
       map fst (e_refsys (s_map st)) = [1] /\
       match snd (step V (frame float) fo rs st (Call 0)) with
-      | OCall (Err e) => e = EValue              (* one residue in the argument, two in the target *)
+      | OCall (Ok d) => map (map (@g_resid V)) d = [[7%Z]; [8%Z]] /\ map (map (@g_name V)) d = [["B0"]; ["B1"]]
       | _ => False
       end
   end.
 Proof.
-  vm_compute. repeat split; try reflexivity; intros l [<-|[<-|[]]]; split; intros [E|[E|[E|[]]]]; discriminate.
+  vm_compute. repeat split; try reflexivity;
+    intros; repeat match goal with
+                   | H : _ \/ _ |- _ => destruct H
+                   | H : False |- _ => destruct H
+                   end; subst; discriminate.
 Qed.
 
 (* the same world with a one-residue target: the call returns a molecule carrying the argument's residue
    number 7 and the target's names *)
 Example C04_nonvacuous_ok :
   let V := V3 float in
-  let p x y z : V := mk3 x y z in
+  let p (x y z : nat) : V := mk3 (f_ofZ (Z.of_nat x)) (f_ofZ (Z.of_nat y)) (f_ofZ (Z.of_nat z)) in
   let g (r : Z) rn n (i : Z) pos : gcell V := mkG r rn n i pos None in
   let hp : heap V := mkHeap
     [ g 1%Z "REF" "A0" 1%Z (p 0 0 0); g 1%Z "REF" "A1" 2%Z (p 1 0 0); g 1%Z "REF" "A2" 3%Z (p 1 1 0);
-      g 5%Z "TA" "B0" 1%Z (p 0.5 0.5 0.5); g 5%Z "TA" "B1" 2%Z (p 1 1 1);
+      g 5%Z "TA" "B0" 1%Z (p 1 1 2); g 5%Z "TA" "B1" 2%Z (p 1 1 1);
       g 7%Z "REF" "A0" 1%Z (p 3 3 3); g 7%Z "REF" "A1" 2%Z (p 3 4 3); g 7%Z "REF" "A2" 3%Z (p 3 4 5) ]
     [ mkT "A0" "REF" 1%Z 0 [1]; mkT "A1" "REF" 1%Z 1 [0; 2]; mkT "A2" "REF" 1%Z 2 [1];
       mkT "B0" "TA" 1%Z 0 [1]; mkT "B1" "TA" 1%Z 1 [0] ] in
